@@ -871,6 +871,24 @@ Definition example_cfg : mcfg :=
      c_brand := repeat 97 31 ++ [195; 169; 61]; c_model := [109; 61; 61]; c_type := [59; 58]; c_serial := [];
      c_cats := [2; 7]; c_auto := true |}.
 
+(* ================================================================== validation *)
+Lemma T_validation_tables :
+  mandatory_keys = [K_txtvers; K_id; K_path; K_ski; K_register] /\ rd_txtvers = K_txtvers /\ rd_ski = K_ski
+  /\ rd_register = K_register /\ txtvers_value = [49] /\ register_values = [b_true; b_false].
+Proof. repeat split; reflexivity. Qed.
+
+(* processMdnsEntry accepts exactly the records the property calls valid *)
+Lemma validation_agrees own m : is_some (entry_of_txt own m) = txt_valid own m.
+Proof.
+  destruct T_validation_tables as [Tm [Tv [Ts [Tr [Tw Tg]]]]].
+  unfold entry_of_txt, txt_valid. rewrite Tm, Tv, Ts, Tr, Tw, Tg. cbn [forallb existsb].
+  destruct (is_some (lookup K_txtvers m)), (is_some (lookup K_id m)), (is_some (lookup K_path m)),
+    (is_some (lookup K_ski m)), (is_some (lookup K_register m)); cbn [andb negb]; try reflexivity.
+  destruct (bytes_eqb (get K_txtvers m) [49]); cbn [andb negb]; [|reflexivity].
+  destruct (bytes_eqb (get K_ski m) own); cbn [andb negb]; [reflexivity|].
+  destruct (bytes_eqb (get K_register m) b_true), (bytes_eqb (get K_register m) b_false); reflexivity.
+Qed.
+
 (* ================================================================== what the source does now *)
 (* these three need the repaired behaviours: they stop compiling if shortenString cuts at a
    plain byte offset again, parseTxt splits on every '=', or QRCodeText passes SKI and
